@@ -6,8 +6,11 @@ import CstructModel.Parser
 
 namespace Cstruct.Parser
 
-/-- the scanner with enough fuel for its input -/
-def strip (l : List Char) : List Char := stripAux (l.length + 1) l
+/-- the scanner with enough fuel for its input, started behind the input character `prev` -/
+def stripFrom (prev : Option Char) (l : List Char) : List Char := stripAux (l.length + 1) prev l
+
+/-- the scanner on a whole text -/
+def strip (l : List Char) : List Char := stripFrom none l
 
 def hasClose : List Char → Bool
   | '*' :: '/' :: _ => true
@@ -16,19 +19,33 @@ def hasClose : List Char → Bool
 
 def isEol (c : Char) : Bool := c = '\r' || c = '\n'
 
+/-- the last character of `prev` followed by the text -/
+def lastOr (prev : Option Char) : List Char → Option Char
+  | [] => prev
+  | c :: r => lastOr (some c) r
+
+/-- the first character of the text followed by `next` -/
+def headOr (l : List Char) (next : Option Char) : Option Char :=
+  match l with
+  | c :: _ => some c
+  | [] => next
+
 /-- texts that the comment scanner consumes completely, ending between two lexical items: sequences of ordinary
     characters, quoted strings, block comments, line comments ended by a newline, and slashes that start no comment.
-    The second component is the scanner's output for the text. -/
-inductive Closed : List Char → List Char → Prop
-  | nil : Closed [] []
-  | char (c : Char) (a o : List Char) : c ≠ '"' → c ≠ '\'' → c ≠ '/' → Closed a o → Closed (c :: a) (c :: o)
-  | quoted (q : Char) (body a o : List Char) : (q = '"' ∨ q = '\'') → q ∉ body → Closed a o →
-      Closed (q :: body ++ q :: a) (q :: body ++ q :: o)
-  | block (body a o : List Char) : hasClose body = false → Closed a o →
-      Closed ('/' :: '*' :: body ++ '*' :: '/' :: a) (newlinesOf body ++ o)
-  | line (body a o : List Char) : (∀ c ∈ body, isEol c = false) → Closed ('\n' :: a) o →
-      Closed ('/' :: '/' :: body ++ '\n' :: a) o
-  | slash (c : Char) (a o : List Char) : c ≠ '*' → c ≠ '/' → Closed (c :: a) o → Closed ('/' :: c :: a) ('/' :: o)
+    `Closed prev a next o`: the text `a` stands behind the input character `prev` and in front of `next` (the output of a block
+    comment depends on its two neighbours, `commentRepl`); `o` is the scanner's output for it. -/
+inductive Closed : Option Char → List Char → Option Char → List Char → Prop
+  | nil (p n : Option Char) : Closed p [] n []
+  | char (p n : Option Char) (c : Char) (a o : List Char) : c ≠ '"' → c ≠ '\'' → c ≠ '/' → Closed (some c) a n o →
+      Closed p (c :: a) n (c :: o)
+  | quoted (p n : Option Char) (q : Char) (body a o : List Char) : (q = '"' ∨ q = '\'') → q ∉ body → Closed (some q) a n o →
+      Closed p (q :: body ++ q :: a) n (q :: body ++ q :: o)
+  | block (p n : Option Char) (body a o : List Char) : hasClose body = false → Closed (some '/') a n o →
+      Closed p ('/' :: '*' :: body ++ '*' :: '/' :: a) n (commentRepl p body (headOr a n) ++ o)
+  | line (p n : Option Char) (body a o : List Char) : (∀ c ∈ body, isEol c = false) → Closed (some '/') ('\n' :: a) n o →
+      Closed p ('/' :: '/' :: body ++ '\n' :: a) n o
+  | slash (p n : Option Char) (c : Char) (a o : List Char) : c ≠ '*' → c ≠ '/' → Closed (some '/') (c :: a) n o →
+      Closed p ('/' :: c :: a) n ('/' :: o)
 
 /-- `name` reaches the type object `id` through exactly `k` look-ups -/
 inductive Chain (tbl : List (String × Bind)) : String → Nat → Nat → Prop
